@@ -64,13 +64,14 @@ def build(cash, pos, r, m):
 
 
 def ops():
-    out = [("acc", i) for i in range(4)] + [("qry", i) for i in range(4)] + [("acc0",), ("qry0",), ("back",), ("reb", 1), ("reb", 2)]
+    out = [("acc", i) for i in range(4)] + [("qry", i) for i in range(4)] + [("acc0",), ("qry0",), ("back",), ("reb", 1), ("reb", 2),
+           ("rebt", 1, 50.0), ("rebt", 2, -50.0)]      # rebalances that DO trade (can flip the sign of the cash balance)
     return out
 
 
 def key(b):
     return (round(b._holdings_quantity[b.base_currency], 6), b._last_accrual,
-            round(b._holdings_margins.get(F, 0.0), 9), b._holdings_quantity.get(F, 0.0), len(b.track_record))
+            round(b._holdings_margins.get(F, 0.0), 9), b._holdings_quantity.get(F, 0.0), round(b._holdings_quantity.get(S, 0.0), 9))
 
 
 def ok_amount(got, exp, cash):
@@ -113,6 +114,27 @@ def step(b, op, r, m):
             pass
         if key(b) != k0 or b._holdings_quantity[b.base_currency] != cash or b._last_accrual != last:
             msgs.append("a rejected accrual changed the account: %r -> %r" % (k0, key(b)))
+    elif op[0] == "rebt":
+        d = DELTAS[op[1]]
+        heldS = b._holdings_quantity.get(S, 0.0)
+        rb = Rebalancing(contracts=[S, F], allocation=[heldS + op[2], b._holdings_quantity.get(F, 0.0)],
+                         measure="nr-contracts", time=last + d)
+        try:
+            b.rebalance(rb)
+        except EndOfEpisodeError:
+            if b.net_liquidation_value(False) <= 0:
+                return ["__insolvent__"]
+            raise
+        exp = ref_interest(cash, r, m, d.total_seconds())
+        if not ok_amount(rb.profit_on_idle_cash, exp, cash):
+            msgs.append("trading rebalance: profit_on_idle_cash %r, expected %s on the balance %r held during the period"
+                        % (rb.profit_on_idle_cash, exp, cash))
+        new = b._holdings_quantity[b.base_currency]
+        if not ok_amount(new - cash + 100.0 * op[2], exp, max(abs(cash), abs(100.0 * op[2]))):
+            msgs.append("trading rebalance: balance moved by %r, expected interest %s minus the cost %r of the trade (interest accrued once, on the pre-trade balance)"
+                        % (new - cash, exp, 100.0 * op[2]))
+        if b._last_accrual != last + d:
+            msgs.append("last accrual time %s after a rebalance at %s" % (b._last_accrual, last + d))
     elif op[0] == "reb":
         d = DELTAS[op[1]]
         rb = Rebalancing(contracts=[S, F], allocation=[b._holdings_quantity.get(S, 0.0), b._holdings_quantity.get(F, 0.0)],
